@@ -1,13 +1,18 @@
 (* C03 — no network input can crash or hang an endpoint. Statements only.
    Proved (for ALL inputs): the frame reader never indexes out of range; PacketSender::acknowledge never runs past
    the window for any id; the rate controller's step never panics from a reachable state for any feedback; the
-   receiver's slot and channel indices stay inside their arrays for any datagram stream. NOT proved: absence of
-   panic sites and loop termination for the whole HalfConnection / Client / Server composition (frame-queue /
-   reorder-buffer consistency, emit loops). Those are decided on the implementation (debug AND release builds,
-   with a hang watchdog) by the hostile / pair streams and through the model correspondence, in which every
-   modelled panic site and loop bound is explicit (partial, see DESIGN.md). *)
-From UF Require Import Consts Base Frame Codec Sender Receiver SendRate
-                       CodecTotal SenderProofs ReceiverProofs SendRateProofs.
+   receiver's slot and channel indices stay inside their arrays for any datagram stream; and, for the whole
+   HalfConnection: in EVERY state reachable by ANY sequence of send / receive / step / flush / frame
+   operations, handling ANY frame returns normally (C03_frame_never_panics) — the frame queue's log, transfer
+   window and reorder buffer stay consistent (FrameQueueProofs.v, ReorderProofs.v), so that no
+   `get_frame(..).unwrap()`, no `drain(..idx)` and no window release can fail on network input.
+   NOT proved: termination of the emit loops of flush() within their fuel and absence of panics in step()/flush()
+   themselves (application-driven; the theorem treats a flush or step that does not return as not having happened),
+   and the Client / Server composition. Those are decided on the implementation (debug AND release builds, with a
+   hang watchdog) by the hostile / pair streams and through the model correspondence, in which every modelled
+   panic site and loop bound is explicit (partial, see DESIGN.md). *)
+From UF Require Import Consts Base Frame Codec Sender Receiver SendRate FrameQueue HalfConn Endpoint
+                       CodecTotal SenderProofs ReceiverProofs SendRateProofs FrameQueueProofs HcTotal.
 
 Theorem C03_read_total : forall bs : list N, exists r, read_frame bs = Ok r.
 Proof. exact read_frame_total. Qed.
@@ -30,4 +35,59 @@ Theorem C03_receiver_indices_in_range :
 Proof. intros w b m ops seq Hw r. apply widx_lt. apply receiver_reachable_wf. exact Hw. Qed.
 Print Assumptions C03_receiver_indices_in_range.
 
+(* The half-connection as a whole: any frame, any reachable state. `cfg_ok` bounds the configuration the way
+   Client/Server construct it (frame ids < 2^32, packet ids < 2^20, windows within the protocol maxima);
+   `frame_u32_ok` says an ack frame's frame-window base is a u32, which holds of every frame the reader returns. *)
+Theorem C03_frame_never_panics :
+  forall c seed ops f,
+    cfg_ok c -> Forall op_ok ops -> frame_u32_ok f ->
+    exists h' k, hc_handle_frame (fold_left hc_apply ops (hc_new c seed)) f = Ok (h', k).
+Proof. exact hc_frame_never_panics. Qed.
+Print Assumptions C03_frame_never_panics.
+
+(* the configurations Client and Server actually construct (Endpoint.v, hc_config_of) satisfy cfg_ok *)
+Theorem C03_endpoint_configs_ok :
+  forall ec ln rn rmrr rmra, ln < pow32 -> cfg_ok (hc_config_of ec ln rn rmrr rmra).
+Proof.
+  intros ec ln rn rmrr rmra H. unfold cfg_ok, hc_config_of. cbn.
+  repeat split; try assumption; try (vm_compute; congruence).
+  change pow20 with 1048576. apply N.mod_lt. discriminate.
+Qed.
+
+Theorem C03_reachable_invariant :
+  forall c seed ops, cfg_ok c -> Forall op_ok ops -> HcInv (fold_left hc_apply ops (hc_new c seed)).
+Proof. exact hc_reachable_inv. Qed.
+
+(* the frame queue alone: every operation total under its invariant *)
+Theorem C03_ack_group_total :
+  forall q s ack rtt, FqInv q -> exists q' s', fq_acknowledge_group q s ack rtt = Ok (q', s') /\ FqInv q' /\ same_shape q q'.
+Proof. exact fq_acknowledge_group_total. Qed.
+
+Theorem C03_advance_window_total :
+  forall q nb rtt, FqInv q -> nb < pow32 -> exists q', fq_advance_transfer_window q nb rtt = Ok q' /\ FqInv q'.
+Proof. exact fq_advance_transfer_window_total. Qed.
+
+Theorem C03_forget_frames_total :
+  forall q thresh rtt, FqInv q -> exists q', fq_forget_frames q thresh rtt = Ok q' /\ FqInv q'.
+Proof. exact fq_forget_frames_total. Qed.
+
+(* non-vacuity: a configuration as the endpoints build it, a history with real traffic (two sends, a flush that
+   emits a frame, an acknowledgement of that frame that advances the window), and the state does change *)
+Example C03_reachable_example :
+  let c := mkHcConfig 4294967295 7 64 64 1048575 3 16 16 100000 100000 100000 None in
+  let ops := [OpSend [1; 2; 3] 0 Reliable; OpSend [4] 1 Unreliable; OpStep 10; OpFlush;
+              OpFrame (FAcks 0 0 [mkAg 4294967295 1 (nonce_bit 5 4294967295)]); OpStep 500; OpFlush] in
+  cfg_ok c /\ Forall op_ok ops /\
+  (let h := fold_left hc_apply (firstn 4 ops) (hc_new c 5) in
+   (fq_wbase (h_fq h), fq_next (h_fq h), len (fq_frames (h_fq h)), s_total (h_snd h)) = (4294967295, 0, 1, 4)) /\
+  (let h := fold_left hc_apply ops (hc_new c 5) in
+   (fq_wbase (h_fq h), fq_next (h_fq h), len (fq_frames (h_fq h)), s_total (h_snd h)) = (0, 1, 2, 1)).
+Proof.
+  cbv zeta. split; [vm_compute; repeat split; discriminate|]. split; [repeat constructor; vm_compute; reflexivity|].
+  split; vm_compute; reflexivity.
+Qed.
+
+Check C03_frame_never_panics :
+  forall c seed ops f, cfg_ok c -> Forall op_ok ops -> frame_u32_ok f ->
+    exists h' k, hc_handle_frame (fold_left hc_apply ops (hc_new c seed)) f = Ok (h', k).
 Check C03_read_total : forall bs : list N, exists r, read_frame bs = Ok r.
